@@ -16,7 +16,8 @@ MISMATCHES = "mismatches_C09"
 VIOLATIONS = "violations_C09"
 KNOWN = None
 SHARD = 60
-RULE = ("real projects of 1-4 jobs drawn from 8 state point shapes (nested, floats, unicode, null, empty containers), "
+RULE = ("real projects of 1-4 jobs drawn from 13 state point shapes (nested, floats, unicode, null, empty containers, the "
+        "EMPTY state point {} and other falsy-looking ones: {a:0}, {a:null}, {a:{}}, {a:[]}), "
         "each job with a document and data files; damage to up to 3 jobs: truncation of the state point file at a byte "
         "offset (every offset in thorough, every 3rd in quick), single-byte substitution at an offset (every / every "
         "5th) x class {digit, letter, quote, brace, space, 0x00, 0x80}, deletion, replacement by other JSON (another "
@@ -46,6 +47,12 @@ SHAPES = [
     {"f": 1e-07, "g": [[], {}]},
     {"a": 1.0},
     {"zz": [10, 20], "y": "q\"uote"},
+    # falsy-looking shapes: the empty state point and values that are falsy in Python
+    {},
+    {"a": 0},
+    {"a": None},
+    {"a": {}},
+    {"a": []},
 ]
 SPF = "signac_statepoint.json"
 DOCF = "signac_job_document.json"
@@ -102,6 +109,13 @@ def _rand_multi(rng):
 
 
 DIRECTED = [
+    # the cached EMPTY state point {} (falsy in Python) must be repaired from the cache like any other (seeded C09-5)
+    {"jobs": [8, 0], "cache": "full", "damage": [[0, "delete"]]},
+    {"jobs": [8, 0], "cache": "full", "damage": [[0, "trunc", 1]]},
+    {"jobs": [8, 0], "cache": "full", "damage": [[0, "replace", "other"]]},
+    {"jobs": [8, 1, 9], "cache": "full", "damage": [[0, "replace", "[]"], [2, "replace", "other"]]},
+    {"jobs": [0, 8], "cache": "partial:2", "damage": [[1, "replace", "1"]]},
+    {"jobs": [8], "cache": "full", "damage": [[0, "rename", "rand", 11]]},
     # a directory named md5("null") without a state point file (load() accepted None before ae33aa8)
     {"jobs": [0, 1], "cache": "none", "damage": [[0, "rename", "null", 0], [0, "delete"]]},
     {"jobs": [0], "cache": "none", "damage": [[0, "rename", "null", 0], [0, "delete"]]},
